@@ -62,9 +62,15 @@ pub fn memory_to_calldata_optimization(source_unit: SourceUnit) -> HashSet<Loc> 
 
                         //if assignment is array subscript
                         pt::Expression::ArraySubscript(_, arr_subscript_box_expression, _) => {
-                            if let pt::Expression::Variable(identifier) =
-                                *arr_subscript_box_expression
+                            //peel nested subscripts (`arr[i][j] = ..`) down to the indexed variable
+                            let mut indexed_expression = *arr_subscript_box_expression;
+                            while let pt::Expression::ArraySubscript(_, inner_box_expression, _) =
+                                indexed_expression
                             {
+                                indexed_expression = *inner_box_expression;
+                            }
+
+                            if let pt::Expression::Variable(identifier) = indexed_expression {
                                 //remove the variable name from the memory_args hashmap
                                 memory_args.remove(&identifier.name);
                             }
